@@ -21,8 +21,11 @@ package main
 //   are dropped (events and telemetry are not modelled).
 
 import (
+	"bytes"
+	"crypto/sha256"
 	"fmt"
 	"go/ast"
+	"go/printer"
 	"go/token"
 	"os"
 	"path/filepath"
@@ -39,7 +42,12 @@ const (
 	tUnit    gtype = "unit"
 	tErrT    gtype = "error"
 	tCtx     gtype = "ctx"
+	tStr     gtype = "Str" // a Go string that is data (names, hashes)
 )
+
+// string-typed struct fields that hold an address / a denomination rather than free text
+var addrFieldNames = map[string]bool{"Owner": true, "Sender": true, "Receiver": true, "Authority": true, "Purchaser": true, "Signer": true}
+var denomFieldNames = map[string]bool{"Denom": true}
 
 func isStruct(t gtype) bool { return strings.HasPrefix(string(t), "S:") }
 func structName(t gtype) string {
@@ -62,6 +70,8 @@ func coqTypeK(t gtype) string {
 		return "(list go_coin)"
 	case tUnit:
 		return "unit"
+	case tStr:
+		return "string"
 	}
 	if isStruct(t) {
 		return "go_" + structName(t)
@@ -87,6 +97,8 @@ func zeroOf(t gtype) string {
 		return "[]"
 	case tUnit:
 		return "tt"
+	case tStr:
+		return "EmptyString"
 	}
 	if isStruct(t) {
 		return "zero_go_" + structName(t)
@@ -108,7 +120,7 @@ func goTypeK(e ast.Expr) gtype {
 	case "bool":
 		return tBool
 	case "string":
-		return tAddrStr
+		return tStr
 	case "error":
 		return tErrT
 	case "sdk.Int", "math.Int":
@@ -136,13 +148,38 @@ type field struct {
 	typ  gtype
 }
 
+// moduleSpec: what to translate for one module and against which primitives
+type moduleSpec struct {
+	name      string   // directory under x/
+	pbFiles   []string // files of x/<name>/types holding the struct declarations
+	goFiles   []string // files of x/<name>/keeper to translate from
+	want      []string // functions to translate, callees first
+	prims     map[string]fnSig
+	consts    map[string]constDef
+	world     string // Coq type of the state threaded through
+	imports   string // Coq imports of the generated keeper file
+	typesMod  string // name of the generated types file (without .v)
+	keeperMod string
+	listName  string   // name of the Definition listing the functions that are NOT translated
+	msgTypes  []string // message types whose ValidateBasic (types/msgs.go) is translated too
+}
+
+type constDef struct {
+	coq string
+	typ gtype
+}
+
+var cur *moduleSpec
+
 var structTable = map[string][]field{}
 var structOrder []string
 
 // loadStructs reads the struct declarations of the generated protobuf files
 func loadStructs(repo string) {
-	for _, fn := range []string{"params.pb.go", "stream.pb.go", "tx.pb.go"} {
-		f := parseFile(filepath.Join(repo, "x", "stream", "types", fn))
+	structTable = map[string][]field{}
+	structOrder = nil
+	for _, fn := range cur.pbFiles {
+		f := parseFile(filepath.Join(repo, "x", cur.name, "types", fn))
 		// two passes so that a struct can mention one declared later in the same file
 		for pass := 0; pass < 2; pass++ {
 			for _, d := range f.Decls {
@@ -164,7 +201,13 @@ func loadStructs(repo string) {
 							good = false
 						}
 						for _, nm := range fl.Names {
-							fs = append(fs, field{nm.Name, ty})
+							fty := ty
+							if ty == tStr && addrFieldNames[nm.Name] {
+								fty = tAddrStr
+							} else if ty == tStr && denomFieldNames[nm.Name] {
+								fty = tDenom
+							}
+							fs = append(fs, field{nm.Name, fty})
 						}
 					}
 					if _, seen := structTable[ts.Name.Name]; !seen {
@@ -187,9 +230,9 @@ func loadStructs(repo string) {
 
 func writeStructTypes(out string) {
 	var sb strings.Builder
-	sb.WriteString("(* GENERATED by /verif/translator (gokeeper.go) from /repo/x/stream/types/{params,stream,tx}.pb.go on every check.\n")
+	sb.WriteString("(* GENERATED by /verif/translator (gokeeper.go) from /repo/x/" + cur.name + "/types/{" + strings.Join(cur.pbFiles, ",") + "} on every check.\n")
 	sb.WriteString("   One record per protobuf struct; strings holding addresses are abstract addresses, Coin = go_coin. Do not edit. *)\n")
-	sb.WriteString("From MC Require Import lib.Prelude lib.GoSdk.\nOpen Scope Z_scope.\n\n")
+	sb.WriteString("From Coq Require Import String.\nFrom MC Require Import lib.Prelude lib.GoSdk.\nOpen Scope Z_scope.\n\n")
 	// order: a struct after the structs it mentions
 	done := map[string]bool{}
 	var emit func(n string)
@@ -248,7 +291,9 @@ type fnSig struct {
 }
 
 // primitives: described by hand in model/StreamKeeperPrims.v, lib/GoSdk.v or produced in GeneratedFns.v
-var primTable = map[string]fnSig{
+var primTable map[string]fnSig
+
+var streamPrims = map[string]fnSig{
 	"k.GetStream":    {coq: "str_GetStream", reads: true, results: []gtype{"S:Stream", tBool}, dropCtx: true},
 	"k.IsStream":     {coq: "str_IsStream", reads: true, results: []gtype{tBool}, dropCtx: true},
 	"k.GetParams":    {coq: "str_GetParams", reads: true, results: []gtype{"S:Params"}, dropCtx: true},
@@ -283,16 +328,89 @@ var kMethodTable = map[methodKey]fnSig{
 	{tTime, "Unix"}:       {coq: "Time_Unix", results: []gtype{tInt64}}, {tTime, "Nanosecond"}: {coq: "Time_Nanosecond", results: []gtype{tInt64}},
 	{tTime, "After"}: {coq: "Time_After", results: []gtype{tBool}}, {tTime, "Before"}: {coq: "Time_Before", results: []gtype{tBool}},
 	{tTime, "Equal"}: {coq: "Time_Equal", results: []gtype{tBool}}, {tTime, "UTC"}: {coq: "Time_UTC", results: []gtype{tTime}},
+	{tAddr, "String"}: {coq: "Addr_String", results: []gtype{tAddrStr}},
+	{tAddr, "Empty"}:  {coq: "Addr_Empty", results: []gtype{tBool}},
 }
 
 // package-level / keeper-field constants
-var constTable = map[string]struct {
-	coq string
-	typ gtype
-}{
+var constTable map[string]constDef
+
+var streamConsts = map[string]constDef{
 	"types.ModuleName":   {"MOD_stream", tModName},
 	"k.feeCollectorName": {"MOD_fee_collector", tModName},
 	"k.authority":        {"KEEPER_authority", tAddrStr},
+}
+
+func u64(coq string, reads bool) fnSig {
+	return fnSig{coq: coq, reads: reads, results: []gtype{tUint64}, dropCtx: reads}
+}
+
+// the registry modules (wrkchain / beacon): store accessors of one entity are the primitives
+func registryPrims(ent, rec string) map[string]fnSig {
+	E := "S:" + ent
+	L := gtype("S:" + ent + "StorageLimit")
+	m := map[string]fnSig{
+		"k.Get" + ent:                   {coq: "reg_GetEntity", reads: true, results: []gtype{gtype(E), tBool}, dropCtx: true},
+		"k.Set" + ent:                   {coq: "reg_SetEntity", stateful: true, impure: true, hasErr: true, dropCtx: true},
+		"k.Is" + ent + "Registered":     {coq: "reg_IsRegistered", reads: true, results: []gtype{tBool}, dropCtx: true},
+		"k.GetHighest" + ent + "ID":     {coq: "reg_GetHighestID", reads: true, impure: true, hasErr: true, results: []gtype{tUint64}, dropCtx: true},
+		"k.SetHighest" + ent + "ID":     {coq: "reg_SetHighestID", stateful: true, impure: true, dropCtx: true},
+		"k.Get" + ent + "StorageLimit":  {coq: "reg_GetStorageLimit", reads: true, results: []gtype{L, tBool}, dropCtx: true},
+		"k.Set" + ent + "StorageLimit":  {coq: "reg_SetStorageLimit", stateful: true, impure: true, hasErr: true, dropCtx: true},
+		"k.IsAuthorisedToRecord":        {coq: "reg_IsAuthorisedToRecord", reads: true, results: []gtype{tBool}, dropCtx: true},
+		"k.GetParamMaxStorageLimit":     u64("reg_GetParamMaxStorageLimit", true),
+		"k.GetParamDefaultStorageLimit": u64("reg_GetParamDefaultStorageLimit", true),
+		"k.SetParams":                   {coq: "reg_SetParams", stateful: true, impure: true, hasErr: true, dropCtx: true},
+		"ctx.BlockTime":                 {coq: "rw_now", reads: true, results: []gtype{tTime}},
+		"time.Now":                      {coq: "rw_wall", reads: true, results: []gtype{tTime}},
+		"sdk.AccAddressFromBech32":      {coq: "sdk_AccAddressFromBech32", impure: true, hasErr: true, results: []gtype{tAddr}},
+	}
+	for k, v := range rec2prims(rec) {
+		m[k] = v
+	}
+	return m
+}
+
+func rec2prims(rec string) map[string]fnSig {
+	if rec == "WrkChainBlock" {
+		return map[string]fnSig{
+			"k.SetWrkChainBlock":             {coq: "reg_SetRecord", stateful: true, impure: true, hasErr: true, dropCtx: true},
+			"k.deleteWrkChainHash":           {coq: "reg_DeleteRecord", stateful: true, impure: true, hasErr: true, dropCtx: true},
+			"k.GetLastWrkChainHeightInState": u64("reg_LowestKeyInState", true),
+		}
+	}
+	return map[string]fnSig{
+		"k.SetBeaconTimestamp":    {coq: "reg_SetRecord", stateful: true, impure: true, hasErr: true, dropCtx: true},
+		"k.deleteBeaconTimestamp": {coq: "reg_DeleteRecord", stateful: true, impure: true, hasErr: true, dropCtx: true},
+	}
+}
+
+var registryConsts = map[string]constDef{
+	"k.authority": {"KEEPER_authority", tAddrStr},
+}
+
+var modules = map[string]*moduleSpec{
+	"stream": {name: "stream", pbFiles: []string{"params.pb.go", "stream.pb.go", "tx.pb.go"}, goFiles: []string{"stream.go", "msg_server.go"},
+		want: []string{"addSeconds", "ClaimFromStream", "AddDeposit", "SetNewFlowRate", "CancelStreamBySenderReceiver",
+			"CreateNewStream", "CreateStream", "ClaimStream", "TopUpDeposit", "UpdateFlowRate", "CancelStream", "UpdateParams"},
+		prims: streamPrims, consts: streamConsts, world: "kworld",
+		imports:  "lib.Prelude lib.GoSdk GeneratedFns GeneratedStreamTypes model.StreamKeeperPrims",
+		typesMod: "GeneratedStreamTypes", keeperMod: "GeneratedStreamKeeper", listName: "stream_keeper_other_functions",
+		msgTypes: []string{"MsgCreateStream", "MsgClaimStream", "MsgTopUpDeposit", "MsgUpdateFlowRate", "MsgCancelStream"}},
+	"wrkchain": {name: "wrkchain", pbFiles: []string{"wrkchain.pb.go", "tx.pb.go"}, goFiles: []string{"register.go", "record.go", "msg_server.go"},
+		want: []string{"QuickCheckHeightIsNew", "GetMaxPurchasableSlots", "IncreaseInStateStorage", "RegisterNewWrkChain", "RecordNewWrkchainHashes",
+			"RegisterWrkChain", "RecordWrkChainBlock", "PurchaseWrkChainStateStorage", "UpdateParams"},
+		prims: registryPrims("WrkChain", "WrkChainBlock"), consts: registryConsts, world: "rworld",
+		imports:  "lib.Prelude lib.GoSdk GeneratedWrkchainTypes model.WrkchainKeeperPrims",
+		typesMod: "GeneratedWrkchainTypes", keeperMod: "GeneratedWrkchainKeeper", listName: "wrkchain_keeper_other_functions",
+		msgTypes: []string{"MsgRegisterWrkChain", "MsgRecordWrkChainBlock", "MsgPurchaseWrkChainStateStorage"}},
+	"beacon": {name: "beacon", pbFiles: []string{"beacon.pb.go", "tx.pb.go"}, goFiles: []string{"register.go", "record.go", "msg_server.go"},
+		want: []string{"GetMaxPurchasableSlots", "IncreaseInStateStorage", "RegisterNewBeacon", "RecordNewBeaconTimestamp",
+			"RegisterBeacon", "RecordBeaconTimestamp", "PurchaseBeaconStateStorage", "UpdateParams"},
+		prims: registryPrims("Beacon", "BeaconTimestamp"), consts: registryConsts, world: "rworld",
+		imports:  "lib.Prelude lib.GoSdk GeneratedBeaconTypes model.BeaconKeeperPrims",
+		typesMod: "GeneratedBeaconTypes", keeperMod: "GeneratedBeaconKeeper", listName: "beacon_keeper_other_functions",
+		msgTypes: []string{"MsgRegisterBeacon", "MsgRecordBeaconTimestamp", "MsgPurchaseBeaconStateStorage"}},
 }
 
 type kbinding struct {
@@ -300,14 +418,15 @@ type kbinding struct {
 }
 
 type kTrans struct {
-	env      map[string]gtype
-	recv     string // receiver name (normalised to "k")
-	stateful bool
-	results  []gtype
-	hasErr   bool
-	fresh    int
-	errs     []string
-	funcs    map[string]fnSig
+	usedStateful bool
+	env          map[string]gtype
+	recv         string // receiver name (normalised to "k")
+	stateful     bool
+	results      []gtype
+	hasErr       bool
+	fresh        int
+	errs         []string
+	funcs        map[string]fnSig
 }
 
 func (kt *kTrans) fail(format string, a ...interface{}) {
@@ -336,6 +455,11 @@ func (kt *kTrans) callName(fun ast.Expr) string {
 func (kt *kTrans) lookup(name string) (fnSig, bool) {
 	if s, ok := primTable[name]; ok {
 		return s, true
+	}
+	if !strings.Contains(name, ".") {
+		if s, ok := primTable["types."+name]; ok {
+			return s, true
+		}
 	}
 	if s, ok := kt.funcs[name]; ok {
 		return s, true
@@ -388,6 +512,9 @@ func (kt *kTrans) call(t *ast.CallExpr) (pre []kbinding, term string, sig fnSig,
 	}
 	if sig.stateful || sig.reads {
 		args = append([]string{"w"}, args...)
+	}
+	if sig.stateful {
+		kt.usedStateful = true
 	}
 	term = "(" + sig.coq + " " + strings.Join(args, " ") + ")"
 	if len(args) == 0 {
@@ -495,28 +622,46 @@ func (kt *kTrans) expr(e ast.Expr) (pre []kbinding, val string, typ gtype) {
 		}
 		num := func(x gtype) bool { return x == tInt64 || x == tUint64 }
 		eqable := func(x gtype) bool { return num(x) || x == tDenom || x == tAddrStr || x == tString }
-		switch t.Op {
-		case token.EQL:
-			if ta != tb || !eqable(ta) {
-				kt.fail("== on %s, %s", ta, tb)
-			}
-			return pre, "(" + a + " =? " + b + ")", tBool
-		case token.NEQ:
-			if ta != tb || !eqable(ta) {
-				kt.fail("!= on %s, %s", ta, tb)
-			}
-			return pre, "(negb (" + a + " =? " + b + "))", tBool
+		_, litA := t.X.(*ast.BasicLit)
+		_, litB := t.Y.(*ast.BasicLit)
+		// an untyped integer constant takes the type of the other operand
+		if litA && num(tb) {
+			ta = tb
 		}
-		if !num(ta) || !num(tb) {
+		if litB && num(ta) {
+			tb = ta
+		}
+		switch t.Op {
+		case token.EQL, token.NEQ:
+			var eq string
+			switch {
+			case ta == tb && ta == tStr:
+				eq = "(String.eqb " + a + " " + b + ")"
+			case ta == tb && eqable(ta):
+				eq = "(" + a + " =? " + b + ")"
+			default:
+				kt.fail("%s on %s, %s", t.Op, ta, tb)
+				eq = "?"
+			}
+			if t.Op == token.NEQ {
+				return pre, "(negb " + eq + ")", tBool
+			}
+			return pre, eq, tBool
+		}
+		if !num(ta) || ta != tb {
 			kt.fail("binary %s on %s, %s", t.Op, ta, tb)
+		}
+		pfx := "i64"
+		if ta == tUint64 {
+			pfx = "u64"
 		}
 		switch t.Op {
 		case token.SUB:
-			return pre, "(i64_sub " + a + " " + b + ")", tInt64
+			return pre, "(" + pfx + "_sub " + a + " " + b + ")", ta
 		case token.ADD:
-			return pre, "(i64_add " + a + " " + b + ")", tInt64
+			return pre, "(" + pfx + "_add " + a + " " + b + ")", ta
 		case token.MUL:
-			return pre, "(i64_mul " + a + " " + b + ")", tInt64
+			return pre, "(" + pfx + "_mul " + a + " " + b + ")", ta
 		case token.LSS:
 			return pre, "(" + a + " <? " + b + ")", tBool
 		case token.LEQ:
@@ -530,9 +675,18 @@ func (kt *kTrans) expr(e ast.Expr) (pre []kbinding, val string, typ gtype) {
 		return pre, "?", tUnknown
 	case *ast.CallExpr:
 		name := exprName(t.Fun)
+		if name == "len" && len(t.Args) == 1 {
+			p, v, ty := kt.expr(t.Args[0])
+			if ty != tStr {
+				kt.fail("len of %s", ty)
+			}
+			return p, "(go_len " + v + ")", tInt64
+		}
 		if name == "uint64" || name == "int64" {
 			p, v, ty := kt.expr(t.Args[0])
 			switch {
+			case name == "uint64" && ty == tUint64:
+				return p, v, tUint64
 			case name == "uint64" && ty == tInt64:
 				return p, "(go_uint64_of_int64 " + v + ")", tUint64
 			case name == "int64" && ty == tUint64:
@@ -575,23 +729,35 @@ func kwrap(pre []kbinding, body string) string {
 }
 
 // isErrCheck recognises `if <errName> != nil { return ..., <errName> }`
-func isErrCheck(s ast.Stmt, errName string) bool {
+// or `if <errName> != nil { return ..., sdkerrors.Wrap[f](E, ...) }` (the error is replaced by E: remap = E)
+func isErrCheck(s ast.Stmt, errName string) (bool, string) {
 	is, ok := s.(*ast.IfStmt)
 	if !ok || is.Init != nil || is.Else != nil {
-		return false
+		return false, ""
 	}
 	be, ok := is.Cond.(*ast.BinaryExpr)
 	if !ok || be.Op != token.NEQ || exprName(be.X) != errName || exprName(be.Y) != "nil" {
-		return false
+		return false, ""
 	}
 	if len(is.Body.List) != 1 {
-		return false
+		return false, ""
 	}
 	rs, ok := is.Body.List[0].(*ast.ReturnStmt)
 	if !ok || len(rs.Results) == 0 {
-		return false
+		return false, ""
 	}
-	return exprName(rs.Results[len(rs.Results)-1]) == errName
+	last := rs.Results[len(rs.Results)-1]
+	if exprName(last) == errName {
+		return true, ""
+	}
+	if ce, ok := last.(*ast.CallExpr); ok && isWrap(exprName(ce.Fun)) && len(ce.Args) >= 1 {
+		return true, errConst(ce.Args[0])
+	}
+	return false, ""
+}
+
+func isWrap(fn string) bool {
+	return fn == "sdkerrors.Wrap" || fn == "sdkerrors.Wrapf" || fn == "errorsmod.Wrap" || fn == "errorsmod.Wrapf"
 }
 
 // bindCall renders `lhs.. := f(..)` for a call; consumes the following error check when f returns an error
@@ -612,9 +778,16 @@ func (kt *kTrans) bindCall(lhs []ast.Expr, ce *ast.CallExpr, rest []ast.Stmt) (s
 	}
 	if sig.hasErr {
 		errName := exprName(lhs[len(lhs)-1])
-		if errName == "_" || len(rest) == 0 || !isErrCheck(rest[0], errName) {
+		okc, remap := false, ""
+		if errName != "_" && len(rest) > 0 {
+			okc, remap = isErrCheck(rest[0], errName)
+		}
+		if !okc {
 			kt.fail("call %s: the error is not propagated by the next statement", name)
 			return "?", rest, false
+		}
+		if remap != "" {
+			term = "(map_err " + remap + " " + term + ")"
 		}
 		rest = rest[1:]
 	}
@@ -784,11 +957,13 @@ func (kt *kTrans) stmts(list []ast.Stmt) string {
 
 func errConst(e ast.Expr) string {
 	n := exprName(e)
-	if strings.HasPrefix(n, "types.") {
-		n = "stream_" + strings.TrimPrefix(n, "types.")
+	switch {
+	case strings.HasPrefix(n, "types."):
+		n = cur.name + "_" + strings.TrimPrefix(n, "types.")
+	case !strings.Contains(n, "."):
+		n = cur.name + "_" + n // inside package types
 	}
-	n = strings.Replace(n, ".", "_", -1)
-	return n
+	return strings.Replace(n, ".", "_", -1)
 }
 
 func (kt *kTrans) ret(results []ast.Expr) string {
@@ -807,7 +982,7 @@ func (kt *kTrans) ret(results []ast.Expr) string {
 			ce, ok := last.(*ast.CallExpr)
 			if ok {
 				fn := exprName(ce.Fun)
-				if (fn == "sdkerrors.Wrap" || fn == "sdkerrors.Wrapf" || fn == "errorsmod.Wrap" || fn == "errorsmod.Wrapf") && len(ce.Args) >= 1 {
+				if isWrap(fn) && len(ce.Args) >= 1 {
 					return "Err " + errConst(ce.Args[0])
 				}
 			}
@@ -835,6 +1010,10 @@ func sigOf(fd *ast.FuncDecl) (fnSig, []field, string) {
 	recv := ""
 	if fd.Recv != nil && len(fd.Recv.List) == 1 && len(fd.Recv.List[0].Names) == 1 {
 		recv = fd.Recv.List[0].Names[0].Name
+		if rt := goTypeK(fd.Recv.List[0].Type); isStruct(rt) {
+			params = append(params, field{recv, rt})
+			recv = ""
+		}
 	}
 	for i, f := range fd.Type.Params.List {
 		ty := goTypeK(f.Type)
@@ -869,55 +1048,71 @@ func sigOf(fd *ast.FuncDecl) (fnSig, []field, string) {
 	return sig, params, recv
 }
 
-func translateKeeperFunc(fd *ast.FuncDecl, funcs map[string]fnSig) (string, []string) {
+// translateKeeperFunc renders one function. A function that takes the context but never calls anything
+// state-changing is rendered as a *reader*: it takes the world and returns only its results.
+func translateKeeperFunc(fd *ast.FuncDecl, funcs map[string]fnSig, defName string) (string, []string, fnSig) {
 	sig, params, recv := sigOf(fd)
-	kt := &kTrans{env: map[string]gtype{}, recv: recv, stateful: sig.stateful, results: sig.results, hasErr: sig.hasErr, funcs: funcs}
-	var ps []string
-	if sig.stateful {
-		ps = append(ps, "(w : kworld)")
+	if defName == "" {
+		defName = fd.Name.Name
 	}
-	for _, p := range params {
-		kt.env[p.name] = p.typ
-		if p.typ == tCtx {
-			continue
+	sig.coq = "go_" + defName
+	render := func(stateful bool) (string, []string, bool) {
+		kt := &kTrans{env: map[string]gtype{}, recv: recv, stateful: stateful, results: sig.results, hasErr: sig.hasErr, funcs: funcs}
+		var ps []string
+		if sig.stateful {
+			ps = append(ps, "(w : "+cur.world+")")
 		}
-		if p.typ == tUnknown {
-			kt.fail("parameter %s: unsupported type", p.name)
+		for _, p := range params {
+			kt.env[p.name] = p.typ
+			if p.typ == tCtx {
+				continue
+			}
+			if p.typ == tUnknown {
+				kt.fail("parameter %s: unsupported type", p.name)
+			}
+			ps = append(ps, fmt.Sprintf("(%s : %s)", p.name, coqTypeK(p.typ)))
 		}
-		ps = append(ps, fmt.Sprintf("(%s : %s)", p.name, coqTypeK(p.typ)))
-	}
-	var rts []string
-	for _, r := range sig.results {
-		if r == tUnknown {
-			kt.fail("unsupported result type")
+		var rts []string
+		for _, r := range sig.results {
+			if r == tUnknown {
+				kt.fail("unsupported result type")
+			}
+			rts = append(rts, coqTypeK(r))
 		}
-		rts = append(rts, coqTypeK(r))
+		rt := "unit"
+		if len(rts) == 1 {
+			rt = rts[0]
+		} else if len(rts) > 1 {
+			rt = "(" + strings.Join(rts, " * ") + ")"
+		}
+		if stateful {
+			rt = "(" + cur.world + " * " + rt + ")"
+		}
+		body := kt.stmts(fd.Body.List)
+		def := fmt.Sprintf("Definition go_%s %s : outcome %s :=\n%s.\n", defName, strings.Join(ps, " "), rt, body)
+		return def, kt.errs, kt.usedStateful
 	}
-	rt := "unit"
-	if len(rts) == 1 {
-		rt = rts[0]
-	} else if len(rts) > 1 {
-		rt = "(" + strings.Join(rts, " * ") + ")"
+	def, errs, used := render(sig.stateful)
+	if sig.stateful && !used && len(errs) == 0 {
+		// a reader
+		def, errs, _ = render(false)
+		sig.reads = true
+		sig.stateful = false
 	}
-	if sig.stateful {
-		rt = "(kworld * " + rt + ")"
-	}
-	body := kt.stmts(fd.Body.List)
-	def := fmt.Sprintf("Definition go_%s %s : outcome %s :=\n%s.\n", fd.Name.Name, strings.Join(ps, " "), rt, body)
-	return def, kt.errs
+	return def, errs, sig
 }
 
-// writeKeeper emits GeneratedStreamTypes.v and GeneratedStreamKeeper.v
-func writeKeeper(repo, typesOut, keeperOut string) {
+// writeKeeper emits the records and the translated functions of one module
+func writeKeeper(repo, module, typesOut, keeperOut string) {
+	cur = modules[module]
+	primTable = cur.prims
+	constTable = cur.consts
 	loadStructs(repo)
 	writeStructTypes(typesOut)
-	files := []string{"stream.go", "msg_server.go"}
-	wantOrder := []string{"addSeconds", "ClaimFromStream", "AddDeposit", "SetNewFlowRate", "CancelStreamBySenderReceiver",
-		"CreateNewStream", "CreateStream", "ClaimStream", "TopUpDeposit", "UpdateFlowRate", "CancelStream", "UpdateParams"}
 	decls := map[string]*ast.FuncDecl{}
 	var allNames []string
-	for _, fn := range files {
-		f := parseFile(filepath.Join(repo, "x", "stream", "keeper", fn))
+	for _, fn := range cur.goFiles {
+		f := parseFile(filepath.Join(repo, "x", cur.name, "keeper", fn))
 		for _, d := range f.Decls {
 			if fd, ok := d.(*ast.FuncDecl); ok && fd.Body != nil {
 				decls[fd.Name.Name] = fd
@@ -927,34 +1122,59 @@ func writeKeeper(repo, typesOut, keeperOut string) {
 	}
 	sort.Strings(allNames)
 	var sb strings.Builder
-	sb.WriteString("(* GENERATED by /verif/translator (gokeeper.go) from /repo/x/stream/keeper/{stream,msg_server}.go on every check.\n")
-	sb.WriteString("   State-passing rendering of the keeper and message-server code; primitives are in model/StreamKeeperPrims.v.\n")
-	sb.WriteString("   proofs/GeneratedStreamEq.v proves these equal to the hand-written model (model/Stream.v). Do not edit. *)\n")
-	sb.WriteString("From MC Require Import lib.Prelude lib.GoSdk GeneratedFns GeneratedStreamTypes model.StreamKeeperPrims.\nOpen Scope Z_scope.\n\n")
+	sb.WriteString("(* GENERATED by /verif/translator (gokeeper.go) from /repo/x/" + cur.name + "/keeper/{" + strings.Join(cur.goFiles, ",") + "} on every check.\n")
+	sb.WriteString("   State-passing rendering of the keeper and message-server code against the hand-written primitives it imports.\n")
+	sb.WriteString("   The proofs/Generated*Eq.v files prove these equal to the hand-written model. Do not edit. *)\n")
+	sb.WriteString("From Coq Require Import String.\nFrom MC Require Import " + cur.imports + ".\nOpen Scope Z_scope.\n\n")
 	funcs := map[string]fnSig{}
-	for _, want := range wantOrder {
+	// the stateless checks of the messages (x/<module>/types/msgs.go)
+	if len(cur.msgTypes) > 0 {
+		mf := parseFile(filepath.Join(repo, "x", cur.name, "types", "msgs.go"))
+		for _, mt := range cur.msgTypes {
+			found := false
+			for _, d := range mf.Decls {
+				fd, ok := d.(*ast.FuncDecl)
+				if !ok || fd.Body == nil || fd.Name.Name != "ValidateBasic" || fd.Recv == nil || len(fd.Recv.List) != 1 {
+					continue
+				}
+				if strings.TrimPrefix(exprName(fd.Recv.List[0].Type), "types.") != mt {
+					continue
+				}
+				found = true
+				def, errs, _ := translateKeeperFunc(fd, funcs, mt+"_ValidateBasic")
+				if len(errs) > 0 {
+					sb.WriteString("(* NOT TRANSLATED " + mt + ".ValidateBasic: " + strings.Join(errs, "; ") + " *)\n\n")
+				} else {
+					sb.WriteString(def + "\n")
+				}
+			}
+			if !found {
+				sb.WriteString("(* NOT FOUND " + mt + ".ValidateBasic *)\n\n")
+			}
+		}
+	}
+	for _, want := range cur.want {
 		fd, ok := decls[want]
 		if !ok {
 			sb.WriteString("(* NOT FOUND " + want + " *)\n\n")
 			continue
 		}
-		def, errs := translateKeeperFunc(fd, funcs)
+		def, errs, sig := translateKeeperFunc(fd, funcs, "")
 		if len(errs) > 0 {
 			sb.WriteString("(* NOT TRANSLATED " + want + ": " + strings.Join(errs, "; ") + " *)\n\n")
 			continue
 		}
 		sb.WriteString(def + "\n")
-		sig, _, _ := sigOf(fd)
 		key := "k." + want
 		if fd.Recv == nil {
 			key = want
 		}
 		funcs[key] = sig
 	}
-	// every other function of the two files is listed, so that a new state-changing function cannot appear unnoticed
+	// every other function of the files is listed, so that a new state-changing function cannot appear unnoticed
 	var others []string
 	inWant := map[string]bool{}
-	for _, w := range wantOrder {
+	for _, w := range cur.want {
 		inWant[w] = true
 	}
 	for _, n := range allNames {
@@ -962,7 +1182,68 @@ func writeKeeper(repo, typesOut, keeperOut string) {
 			others = append(others, n)
 		}
 	}
-	sb.WriteString("From Coq Require Import String.\nLocal Open Scope string_scope.\n")
-	sb.WriteString("Definition stream_keeper_other_functions : list string :=\n  " + strList(others) + ".\n")
+	sb.WriteString("Local Open Scope string_scope.\n")
+	sb.WriteString("Definition " + cur.listName + " : list string :=\n  " + strList(others) + ".\n")
+	// the bodies of the module's own functions that the translated code calls as PRIMITIVES (described by hand in the
+	// prims files): a digest of each body (comments stripped, gofmt layout), so that an edit to one of them is noticed
+	for _, fn := range []string{"params.go", "keeper.go"} {
+		f := parseFile(filepath.Join(repo, "x", cur.name, "keeper", fn))
+		for _, d := range f.Decls {
+			if fd, ok := d.(*ast.FuncDecl); ok && fd.Body != nil {
+				if _, dup := decls[fd.Name.Name]; !dup {
+					decls[fd.Name.Name] = fd
+				}
+			}
+		}
+	}
+	var prims []string
+	for k := range cur.prims {
+		if strings.HasPrefix(k, "k.") && !strings.Contains(strings.TrimPrefix(k, "k."), ".") {
+			prims = append(prims, strings.TrimPrefix(k, "k."))
+		}
+	}
+	// ... and, transitively, the module functions those bodies call
+	inPrims := map[string]bool{}
+	for _, pn := range prims {
+		inPrims[pn] = true
+	}
+	for i := 0; i < len(prims); i++ {
+		fd, ok := decls[prims[i]]
+		if !ok {
+			continue
+		}
+		ast.Inspect(fd.Body, func(n ast.Node) bool {
+			ce, ok := n.(*ast.CallExpr)
+			if !ok {
+				return true
+			}
+			if sel, ok := ce.Fun.(*ast.SelectorExpr); ok {
+				callee := sel.Sel.Name
+				if _, isDecl := decls[callee]; isDecl && !inPrims[callee] && !inWant[callee] {
+					if id, ok := sel.X.(*ast.Ident); ok && (id.Name == "k" || id.Name == "q" || id.Name == "keeper") {
+						inPrims[callee] = true
+						prims = append(prims, callee)
+					}
+				}
+			}
+			return true
+		})
+	}
+	sort.Strings(prims)
+	var digests []string
+	for _, pn := range prims {
+		fd, ok := decls[pn]
+		if !ok {
+			digests = append(digests, fmt.Sprintf("(%s, %s)", q(pn), q("MISSING")))
+			continue
+		}
+		cp := *fd
+		cp.Doc = nil
+		var buf bytes.Buffer
+		printer.Fprint(&buf, token.NewFileSet(), &cp)
+		sum := sha256.Sum256(buf.Bytes())
+		digests = append(digests, fmt.Sprintf("(%s, %s)", q(pn), q(fmt.Sprintf("%x", sum[:8]))))
+	}
+	sb.WriteString("Definition " + cur.name + "_primitive_bodies : list (string * string) :=\n  [" + strings.Join(digests, ";\n   ") + "].\n")
 	os.WriteFile(keeperOut, []byte(sb.String()), 0o644)
 }
